@@ -304,6 +304,40 @@ def run_tie(run, pkg, src, n, area):
     if r.get('error'): run.corr_broken.append('tie_%s: %s' % (pkg, str(r['error'])[:400]))
     return int(r.get('evaluations', 0)), int(r.get('distinct_nontrivial', 0)), r.get('distribution', {}), r.get('samples', [])[:2]
 
+def run_corpus(run, pid, src):
+    """minimised past failures, run first: corpus/<pid>/*.c.  Each program is compiled and run with the compiler under test and with gcc
+    (first line may hold `// FLAGS: ...` for both compilers, `// LIBS: ...`, and `// EXPECT: <exact stdout>` when gcc is not the reference,
+    `// TWO: other.c` = a second unit compiled by gcc and linked in); the outputs must be equal.  Returns the number of programs run."""
+    d = os.path.join(VERIF, 'corpus', pid, 'run')
+    if not os.path.isdir(d): return 0
+    wd = scratch_dir(); n = 0
+    for f in sorted(os.listdir(d)):
+        if not f.endswith('.c') or f.endswith('.aux.c'): continue
+        text = open(os.path.join(d, f)).read(); n += 1
+        opt = lambda k: (re.search(r'^// %s: (.*)$' % k, text, re.M) or [None, ''])[1].strip()
+        flags, libs, expect, two = opt('FLAGS').split(), opt('LIBS').split(), opt('EXPECT'), opt('TWO')
+        extra = []
+        if two:
+            rc, o, e = sh(['gcc', '-w', '-O1', '-c', '-o', os.path.join(wd, f + '.aux.o'), os.path.join(d, two)] , timeout=120)
+            if rc != 0: run.corr_broken.append('corpus %s: the auxiliary unit %s does not compile with gcc: %s' % (f, two, e[-200:])); continue
+            extra = [os.path.join(wd, f + '.aux.o')]
+        outs = {}
+        for cc, cmd in (('chibicc', [os.path.join(src, 'chibicc')]), ('gcc', ['gcc', '-w', '-O0', '-std=gnu11'])):
+            if cc == 'gcc' and expect: continue
+            exe = os.path.join(wd, f + '.' + cc)
+            rc, o, e = sh(cmd + flags + ['-o', exe, os.path.join(d, f)] + extra + libs, timeout=120)
+            if rc != 0: outs[cc] = 'COMPILE-FAIL: ' + (e.strip().split('\n') or [''])[0][:200]; continue
+            rc, o, e = sh([exe], timeout=30)
+            outs[cc] = o if rc == 0 else 'RUN-FAIL rc=%d: %s' % (rc, o[-200:])
+        ref = expect.replace('\\n', '\n') if expect else outs.get('gcc', '')
+        if not expect and ref.startswith(('COMPILE-FAIL', 'RUN-FAIL')):
+            run.corr_broken.append('corpus %s fails under gcc: %s' % (f, ref[:200])); continue
+        if outs.get('chibicc', '').strip() != ref.strip():
+            run.violation(dict(kind='corpus-program', file='corpus/%s/run/%s' % (pid, f), chibicc=outs.get('chibicc', '')[:600], expected=ref[:600], program=text[:3000],
+                               how='a minimised past failure of this property: compile and run with chibicc and with gcc (or compare with the EXPECT line); outputs must be equal'),
+                          dict(area='corpus', construct=f))
+    return n
+
 def compile_run(cc, src_file, exe, args=(), timeout=120, run_timeout=20):
     """compile a C file with the given compiler command list and run it; returns (status, stdout)
     status: 'ok' | 'compile-fail:<msg>' | 'run-fail:<rc>'"""
